@@ -332,6 +332,7 @@ impl FixedMethod {
                         B_U_KAR => self.buffer.push(B_U),
                         B_UU_KAR => self.buffer.push(B_UU),
                         B_RRI_KAR => self.buffer.push(B_RRI),
+                        B_VOCALIC_RR => self.buffer.push(B_SANSKRIT_RR),
                         B_E_KAR => self.buffer.push(B_E),
                         B_OI_KAR => self.buffer.push(B_OI),
                         B_O_KAR => self.buffer.push(B_O),
@@ -369,6 +370,10 @@ impl FixedMethod {
                         B_RRI_KAR => {
                             self.buffer.pop();
                             self.buffer.push(B_RRI);
+                        }
+                        B_VOCALIC_RR => {
+                            self.buffer.pop();
+                            self.buffer.push(B_SANSKRIT_RR);
                         }
                         B_E_KAR => {
                             self.buffer.pop();
